@@ -341,11 +341,21 @@ class History:
             v = self.value(T, ns)
             upd = {'k%d' % rng.randint(0, 3): v}
             op = ['session_block', sid, ns, copy.deepcopy(upd)]
+            more = None
+            if rng.random() < 0.25:
+                # while the block is open something else saves a fresh
+                # session for the client; the block goes on modifying its own
+                more = {'m%d' % rng.randint(0, 2): self.value(T, ns)}
+                op.append([{'fresh': self.value(T, ns)},
+                           copy.deepcopy(more)])
+                ctx.count('session_blocks_with_a_save_inside')
             self.ops.append(op)
             res = self.r.step(op)
             if res.get('exc'):
                 return self.fail('session() block raised', res)
             ctx.count('session_blocks')
+            if more:
+                upd = dict(upd, **more)
             if not R.deep_eq(res.get('ret'), self.model[(sid, ns)]):
                 return self.fail('session() block yielded %r, the model '
                                  'says %r' % (res.get('ret'),
@@ -436,6 +446,7 @@ def run(ctx):
     ctx.require('session_reads_checked', 100)
     ctx.require('same_transport_reconnects', 5)
     ctx.require('session_blocks', 20)
+    ctx.require('session_blocks_with_a_save_inside', 5)
     ctx.require('saves', 20)
     ctx.require('sibling_namespace_reads', 5)
     ctx.require('duplicate_connects', 5)
